@@ -657,6 +657,9 @@ def nomut_for(ctx, prop, rule, regs, floor):
     for reg in regs:
         fs, _ = reg_targets(ctx, reg, include_wrappers=True)
         allowed |= {f.fq for f in fs}
+        for f in fs:  # closures handed out by registration-time factories
+            allowed |= {g.fq for g in f.nested.values()}
+            allowed |= {g.fq for g in f.lambdas}
     return rule_nomut(
         ctx, prop, rule, floor=floor,
         only=lambda f, role: f.fq in allowed or role.startswith(
